@@ -78,6 +78,7 @@ type c33World struct {
 	refs     map[string][]wref // well-formed references per node
 	nkeys    map[string]int    // distinct (type, direction, target) among them
 	ids      map[string]*ua.NodeID
+	mapNode  string // Objects node of the added MapNamespace
 	illForm  int
 }
 
@@ -164,6 +165,11 @@ func c33Setup(s *server.Server) {
 	ns.AddNode(mkVar(o2, "o2", ua.NodeClassObject, []*ua.ReferenceDescription{rd(custom, false, folder, "folder", ua.NodeClassObject)}))
 	ns.AddNode(mkVar(m1, "m1", ua.NodeClassMethod, nil))
 	ns.AddNode(mkVar(vw, "view", ua.NodeClassView, nil))
+
+	// second added namespace: the map-backed namespace (own Browse implementation)
+	mp := server.NewMapNamespace(s, "urn:verif:c33map")
+	mp.Data["a"] = int32(1)
+	mp.Data["b"] = "x"
 }
 
 func buildC33World() (*c33World, error) {
@@ -249,6 +255,25 @@ func buildC33World() (*c33World, error) {
 			ks[refKey{x.typ, x.fwd, x.target}] = true
 		}
 		w.nkeys[n.ID().String()] = len(ks)
+	}
+	// the map namespace's address space is virtual: its Objects node has one
+	// forward HasComponent reference to a Variable per key
+	for _, ns := range s.Namespaces() {
+		mp, ok := ns.(*server.MapNamespace)
+		if !ok {
+			continue
+		}
+		w.mapNode = ua.NewNumericNodeID(mp.ID(), id.ObjectsFolder).String()
+		hc := ua.NewNumericNodeID(0, id.HasComponent).String()
+		var keys []string
+		for k := range mp.Data {
+			keys = append(keys, k)
+		}
+		sort.Strings(keys)
+		for _, k := range keys {
+			w.refs[w.mapNode] = append(w.refs[w.mapNode], wref{typ: hc, fwd: true, target: ua.NewStringNodeID(mp.ID(), k).String(), class: uint32(ua.NodeClassVariable)})
+		}
+		w.nkeys[w.mapNode] = len(keys)
 	}
 	return w, nil
 }
@@ -347,19 +372,28 @@ func (w *c33World) browseDirect(c c33Case) (res *ua.BrowseResult, panicked strin
 
 type c33Verdict struct{ sig, detail string }
 
+// pfx distinguishes the node-centric namespace (ns0 and the added
+// NodeNameSpace) from the added MapNamespace, which has its own Browse.
+func (w *c33World) pfx(c c33Case) string {
+	if c.Node == w.mapNode {
+		return "Browse/mapns/"
+	}
+	return "Browse/"
+}
+
 // judge compares a result with the oracle and classifies every discrepancy.
 func (w *c33World) judge(c c33Case, res *ua.BrowseResult) (out []c33Verdict, shape string) {
 	if res == nil {
-		return []c33Verdict{{"Browse/no-result", fmt.Sprintf("%+v", c)}}, "none"
+		return []c33Verdict{{w.pfx(c) + "no-result", fmt.Sprintf("%+v", c)}}, "none"
 	}
 	if res.StatusCode != ua.StatusGood {
-		return []c33Verdict{{"Browse/bad-status-for-existing-node", fmt.Sprintf("%v for %+v", res.StatusCode, c)}}, "none"
+		return []c33Verdict{{w.pfx(c) + "bad-status-for-existing-node", fmt.Sprintf("%v for %+v", res.StatusCode, c)}}, "none"
 	}
 	exp, judged := w.expected(c)
 	got := map[refKey]bool{}
 	for _, r := range res.References {
 		if r == nil || r.NodeID == nil || r.ReferenceTypeID == nil {
-			out = append(out, c33Verdict{"Browse/result-with-nil-member", fmt.Sprintf("%+v", c)})
+			out = append(out, c33Verdict{w.pfx(c) + "result-with-nil-member", fmt.Sprintf("%+v", c)})
 			continue
 		}
 		got[refKey{r.ReferenceTypeID.String(), r.IsForward, r.NodeID.NodeID.String()}] = true
@@ -405,7 +439,7 @@ func (w *c33World) judge(c c33Case, res *ua.BrowseResult) (out []c33Verdict, sha
 		default:
 			kind = "mask=" + maskClass(c.Mask) + "/extra-ref:class-not-in-mask"
 		}
-		out = append(out, c33Verdict{"Browse/" + kind, fmt.Sprintf("case %+v returned %v which the oracle excludes", c, k)})
+		out = append(out, c33Verdict{w.pfx(c) + kind, fmt.Sprintf("case %+v returned %v which the oracle excludes", c, k)})
 	}
 	for k := range exp {
 		if !got[k] {
@@ -415,7 +449,7 @@ func (w *c33World) judge(c c33Case, res *ua.BrowseResult) (out []c33Verdict, sha
 			if r.typ != c.RefType {
 				kind = "subtype"
 			}
-			out = append(out, c33Verdict{fmt.Sprintf("Browse/includeSubtypes=%v/dir=%s/mask=%s/missing-ref:%s", c.Sub, dirNames[c.Dir], maskClass(c.Mask), kind),
+			out = append(out, c33Verdict{fmt.Sprintf("%sincludeSubtypes=%v/dir=%s/mask=%s/missing-ref:%s", w.pfx(c), c.Sub, dirNames[c.Dir], maskClass(c.Mask), kind),
 				fmt.Sprintf("case %+v did not return %v", c, k)})
 		}
 	}
@@ -517,6 +551,9 @@ func c33Worker(s evid.ShardInfo, r *evid.Run, thorough bool) {
 		evid.EngineError("C33", "%v", err)
 	}
 	nodes := w.nodeSet(thorough)
+	if w.mapNode != "" {
+		nodes = append(nodes, w.mapNode)
+	}
 	types := append([]string{"i=0"}, w.refTypes...)
 	if s.Index == 0 {
 		all := make([]string, 0, len(w.nodes))
@@ -556,7 +593,7 @@ func c33Worker(s evid.ShardInfo, r *evid.Run, thorough bool) {
 						if pan != "" {
 							r.Eval("")
 							r.Outcome("direct:panic")
-							r.Violate(fmt.Sprintf("Browse/includeSubtypes=%v/requested=%s/panic/%s", c.Sub, w.reqClass(t), pan), fmt.Sprintf("%s; case %+v", detail, c), c)
+							r.Violate(fmt.Sprintf("%sincludeSubtypes=%v/requested=%s/panic/%s", w.pfx(c), c.Sub, w.reqClass(t), pan), fmt.Sprintf("%s; case %+v", detail, c), c)
 							continue
 						}
 						vs, shape := w.judge(c, res)
